@@ -787,6 +787,9 @@ func interpreterCases(pk *packages.Package) map[string]bool {
 }
 
 func c16Consumers(p *Prog, r *Report) {
+	if n := checkCallTargetArithmetic(p, r, "C16.R4"); n == 0 {
+		r.Und("C16.R4", "branch target arithmetic", "", "no scanner of package bytecode computes an address from a decoded displacement")
+	}
 	decName := qual(x86Pkg, "Decode")
 	n := 0
 	for _, f := range p.Funcs {
@@ -1251,4 +1254,131 @@ func c16IndexProbe(p *Prog) {
 			fmt.Printf("  unproven %s %s\n", o.Pos, o.Construct)
 		}
 	}
+}
+
+// linForm: v as an integer-linear combination of leaves (constants folded; + − unary − and integer conversions looked through).
+func linForm(k *Keyer, v ssa.Value, sign int64, out map[string]int64, konst *int64, depth int) {
+	v = resolveLocal(v)
+	if depth > 12 {
+		out[k.Key(v)] += sign
+		return
+	}
+	switch x := v.(type) {
+	case *ssa.Const:
+		if c, ok := constInt(x); ok {
+			*konst += sign * c
+			return
+		}
+	case *ssa.Convert:
+		if isIntegerType(x.Type()) && isIntegerType(x.X.Type()) {
+			linForm(k, x.X, sign, out, konst, depth+1)
+			return
+		}
+	case *ssa.ChangeType:
+		linForm(k, x.X, sign, out, konst, depth+1)
+		return
+	case *ssa.UnOp:
+		if x.Op == token.SUB {
+			linForm(k, x.X, -sign, out, konst, depth+1)
+			return
+		}
+	case *ssa.BinOp:
+		switch x.Op {
+		case token.ADD:
+			linForm(k, x.X, sign, out, konst, depth+1)
+			linForm(k, x.Y, sign, out, konst, depth+1)
+			return
+		case token.SUB:
+			linForm(k, x.X, sign, out, konst, depth+1)
+			linForm(k, x.Y, -sign, out, konst, depth+1)
+			return
+		}
+	}
+	out[k.Key(v)] += sign
+}
+
+// checkCallTargetArithmetic: a scanner of package bytecode that turns the displacement of a decoded call/branch into an
+// address returns, on every such way, start + position + displacement (+ the instruction's length when the displacement is
+// an x86 one, which counts from the next instruction), each exactly once and nothing else.
+func checkCallTargetArithmetic(p *Prog, r *Report, rule string) int {
+	n := 0
+	for _, f := range p.FuncsIn("internal/bytecode") {
+		if f.Blocks == nil || f.Signature.Results().Len() != 2 || !isUintptr(f.Signature.Results().At(0).Type()) || errIndex(f.Signature) != 1 {
+			continue
+		}
+		var start *ssa.Parameter
+		for _, pr := range f.Params {
+			if isUintptr(pr.Type()) {
+				start = pr
+			}
+		}
+		if start == nil {
+			continue
+		}
+		k := NewKeyer(f)
+		// displacement leaves: the result of a module call that decodes a relative address, or a checked assertion to a
+		// PC-relative argument type
+		relKind := map[string]string{}
+		eachInstr(f, func(i ssa.Instruction) {
+			switch x := i.(type) {
+			case *ssa.Call:
+				if cal := staticCallee(x.Common()); cal != nil && relPkg(cal) == "internal/bytecode" && cal.Signature.Results().Len() == 1 && isIntegerType(cal.Signature.Results().At(0).Type()) {
+					for _, a := range x.Call.Args {
+						if strings.Contains(a.Type().String(), "asm.Inst") {
+							relKind[k.Key(x)] = "next"
+						}
+					}
+				}
+			case *ssa.Extract:
+				if ta, ok := x.Tuple.(*ssa.TypeAssert); ok && x.Index == 0 && strings.HasSuffix(ta.AssertedType.String(), "PCRel") {
+					relKind[k.Key(x)] = "self"
+				}
+			}
+		})
+		if len(relKind) == 0 {
+			continue
+		}
+		for _, ret := range returnsOf(f) {
+			rv := retResult(ret, 0)
+			if c, ok := constInt(rv); ok && c == 0 {
+				continue
+			}
+			form := map[string]int64{}
+			var konst int64
+			linForm(k, rv, 1, form, &konst, 0)
+			var rel, kind string
+			for key, kd := range relKind {
+				if form[key] != 0 {
+					rel, kind = key, kd
+				}
+			}
+			if rel == "" {
+				continue
+			}
+			n++
+			// expected leaves
+			okForm := form[k.Key(start)] == 1 && form[rel] == 1 && konst == 0
+			nLen, nPos, nOther := int64(0), int64(0), 0
+			for key, c := range form {
+				if c == 0 || key == k.Key(start) || key == rel {
+					continue
+				}
+				switch {
+				case strings.HasSuffix(key, ".Len") || strings.Contains(key, ".Len@") || strings.Contains(key, "Len"):
+					nLen += c
+				default:
+					nPos += c
+					nOther++
+				}
+			}
+			wantLen := int64(0)
+			if kind == "next" {
+				wantLen = 1
+			}
+			okForm = okForm && nLen == wantLen && nPos == 1 && nOther == 1
+			r.Check(okForm, rule, "branch target computed in "+shortName(f)+" at "+blockOrdinalRet(ret), p.Pos(posOf(ret)), "start + position + displacement"+map[bool]string{true: " + length", false: ""}[wantLen == 1],
+				"the address of the function a wrapper calls is not start + position + displacement (+ instruction length for x86): the mock is installed at some other address")
+		}
+	}
+	return n
 }
